@@ -69,6 +69,9 @@ def setup_hta_env() -> None:
 
 
 _MOD = None
+import collections as _collections
+
+_RECENT: "_collections.deque" = _collections.deque(maxlen=int(os.environ.get("VERIF_HISTORY", "96")))
 
 
 def _limit_memory() -> None:
@@ -120,7 +123,9 @@ def _where(tb: str) -> str:
 def _work(chunk: List[Any]) -> Dict[str, Any]:
     out = dict(n=0, nontrivial=0, outcomes=set(), execs=0, viols=[], xtrans=0, xstates=0)
     per_sig: Dict[str, int] = {}
-    for w in chunk:
+    out["histories"] = {}
+    for idx, w in enumerate(chunk):
+        _RECENT.append(w)
         r = safe_check(_MOD, w)
         out["n"] += 1
         out["execs"] += int(r.get("execs", 1))
@@ -134,6 +139,8 @@ def _work(chunk: List[Any]) -> Dict[str, Any]:
         for sig, detail in r.get("viol", []):
             k = per_sig.get(sig, 0)
             per_sig[sig] = k + 1
+            if k == 0:
+                out["histories"][sig] = list(_RECENT)   # what this process analysed before (ends with w)
             if k < 2:
                 out["viols"].append((sig, w, detail))
             else:
@@ -223,7 +230,12 @@ def run(modname: str, tier: str, seed: int, workers: int) -> int:
     redo: List[Any] = []          # worlds whose worker process died (pool broken): re-run one per subprocess
     pool_breaks = 0
 
+    histories: Dict[str, List[Any]] = {}
+
     def absorb(r):
+        for sg, h in r.get("histories", {}).items():
+            if sg not in histories or len(h) < len(histories[sg]):
+                histories[sg] = h
         for k in ("n", "nontrivial", "execs", "xtrans", "xstates"):
             agg[k] += r[k]
         agg["outcomes"] |= r["outcomes"]
@@ -289,6 +301,7 @@ def run(modname: str, tier: str, seed: int, workers: int) -> int:
     known_hits: Dict[str, Dict[str, Any]] = {}
     new_viol = 0
     unrepro: List[Any] = []
+    history_dependent: set = set()
     nconf = 0
     lines: List[str] = []
     rdir = os.path.join(os.environ.get("VERIF_REPLAY_DIR", os.path.join(VERIF, "replays")), pid)
@@ -306,9 +319,19 @@ def run(modname: str, tier: str, seed: int, workers: int) -> int:
         real_sched = any(sig.startswith(p) for p in getattr(mod, "REAL_SCHED_PREFIXES", ()))
         if nconf <= MAX_CONFIRM and not real_sched:
             ok, msg = confirm_replay(modname, path, sig)
+            if not ok and len(histories.get(sig, [])) > 1:
+                # the outcome may depend on what the same process executed before (state leaking between analyses):
+                # replay the sequence of worlds that preceded it in its chunk, in a fresh process, twice
+                with open(path, "w") as fh:
+                    json.dump(dict(property=pid, signature=sig, world=s["world"], history=histories[sig], detail=s["detail"],
+                                   occurrences=s["count"]), fh, indent=1, default=str)
+                ok, msg2 = confirm_replay(modname, path, sig)
+                if ok:
+                    history_dependent.add(sig)
+                msg = msg + " / with history: " + (msg2 or "reproduced")
             if not ok:
-                # not reproducible from its own world in a fresh process: the outcome depended on what the worker had
-                # executed before (or on uncaptured nondeterminism). Never reported as a violation.
+                # not reproducible in a fresh process, alone or after its chunk history: the outcome depended on something
+                # the harness does not own. Never reported as a violation.
                 unrepro.append((sig, msg))
                 continue
         ke = known_entry(sig)
@@ -318,7 +341,8 @@ def run(modname: str, tier: str, seed: int, workers: int) -> int:
             h["count"] += s["count"]
         else:
             new_viol += 1
-            lines.append(f"VIOLATION property={pid} replay={path} signature={sig} occurrences={s['count']}")
+            hd = " history-dependent=yes(replay file holds the sequence of analyses)" if sig in history_dependent else ""
+            lines.append(f"VIOLATION property={pid} replay={path} signature={sig} occurrences={s['count']}{hd}")
     for name, h in sorted(known_hits.items()):
         lines.insert(0, f"KNOWN-FINDING: property={pid} {name} :: {h['entry'].get('description', '')} "
                         f"(matched signatures={len(h['sigs'])}, occurrences={h['count']}, replay={h['replay']})")
@@ -406,6 +430,8 @@ def replay(modname: str, path: str, as_json: bool, full: bool = False) -> int:
         mod.worker_init()
     with open(path) as fh:
         rec = json.load(fh)
+    for w_prev in (rec.get("history") or [])[:-1]:
+        safe_check(mod, w_prev)      # earlier analyses of the same process (their results are not judged here)
     r = safe_check(mod, rec["world"])
     sigs = [s for s, _ in r["viol"]]
     if as_json:
